@@ -17,7 +17,8 @@ Not modelled here (other components): the XDS packet assembly (`xds_separator`, 
 line is a complete, checksum-valid packet fed inside one frame; Teletext page assembly (C02) and
 the cache (C10) - a `page` line is a complete page fed inside one frame and the model keeps
 the set of page numbers cached for the *current* network (`cached`), which `vbi_chsw_reset`
-empties because it replaces `vbi->cn`.
+empties because it replaces `vbi->cn`.  The one part of `store_lop` that touches this model's state
+is kept: pages up to 199 are not stored while the channel-switch countdown runs.
 
 Times are integer microseconds.  The C code compares doubles; the two boundary deltas (exactly
 25000 and 50000 us) are refused on both sides (`rej time`) so that rounding cannot matter.
@@ -346,7 +347,10 @@ def rxLine (cfg : Cfg) (t : Nat) (s : State) (l : Line) : State × List Ev :=
   | .wss b0 b1 => rxWss s b0 b1 t
   | .xds ty bytes => rxXds cfg.xdsGuard s ty bytes
   | .page pgno =>
-    if hasBit s.mask VBI_EVENT_TTX_PAGE then
+    -- store_lop (packet.c:1523): a page up to 199 takes part in the rolling-header test; the harness'
+    -- header text carries no page number, so `same_header` is inconclusive (-2) and while the
+    -- channel-switch countdown runs the page is dropped (`if (vbi->chswcd > 0) return TRUE`)
+    if hasBit s.mask VBI_EVENT_TTX_PAGE && !(pgno ≤ 0x199 && s.chswcd > 0) then
       ({ s with cached := if s.cached.contains pgno then s.cached else pgno :: s.cached }, [])
     else (s, [])
 
